@@ -35,6 +35,17 @@ int main(int argc, char** argv) {
       if (!(bf == l)) violation("c15:LocalDateTime-parse-F", fmt("{\"text\":%s}", jstr(w).c_str()));
       c.add("local_datetimes");
     }
+    // every date x every hour, every minute, every second (one field swept, the other two derived from it): pairwise
+    // interactions between the date and each time field
+    for (int axis = 0; axis < 3; axis++) for (int v = 0; v < (axis == 0 ? 24 : 60); v++) {
+      int h = axis == 0 ? v : (v * 5 + r.d) % 24, mi = axis == 1 ? v : (v * 7 + r.m) % 60, se = axis == 2 ? v : (v * 11 + r.d) % 60;
+      LocalDateTime l = LocalDateTime::forComponents(r.y, r.m, r.d, h, mi, se);
+      std::string w = fmt("%04d-%02d-%02dT%02d:%02d:%02d", r.y, r.m, r.d, h, mi, se);
+      if (pr(l) != w) violation("c15:LocalDateTime-print", fmt("{\"got\":%s,\"want\":%s}", jstr(cp.s).c_str(), jstr(w).c_str()));
+      LocalDateTime b = LocalDateTime::forDateString(w.c_str());
+      if (!(b == l) || b.isError()) violation("c15:LocalDateTime-parse", fmt("{\"text\":%s}", jstr(w).c_str()));
+      c.add("local_datetimes");
+    }
     // boundary dates x all offsets
     bool boundary = (r.d == 1 || r.d == r.dim || (r.m == 2 && r.d >= 28)) && (r.y % 16 == (int)(a.seed % 16) || r.y <= 1874 || r.y >= 2126 || r.y == 2000);
     if (boundary) {
